@@ -842,8 +842,9 @@ for the message* (= the sender stored in `info/<m>`; never for a `#@[]` message)
 bounce file of that moment inside its text, and that file names one record per appended text.
 **Per record**: the text appended for every record that is not among the crash-lost ones
 (`lostRecs`: records that were in `bounce/<m>` when a machine crash replaced the never-fsynced file by
-something that does not even start with the old content — the documented exemption) is inside the
-queued notice.  If no crash ever touched the file (`lost = false`) the file was exactly the
+something that does not even start with the old content — the documented exemption; a record gets there
+only by a `crashBounce` that the monitor accepts in the crash window right after a crash `.restart`:
+`C03_lost_step`, `C03_lost_after_crash`) is inside the queued notice.  If no crash ever touched the file (`lost = false`) the file was exactly the
 concatenation of the appended texts. -/
 theorem C14_daemon_committed (cfg : Daemon.Cfg) (s : Daemon.St) (g : Ghost) (hr : GReach cfg s g) (m : Nat)
     (x : Sent) (hx : x ∈ (g m).committed) :
